@@ -102,6 +102,17 @@ CHECKS = {
              "and main-scheduler replacement (own running stream incl. primary, terminated stream) keep work and caller "
              "running; concurrent creators never obtain equal ranks",
         ref="DESIGN.md §5 C17"),
+    "C15": dict(
+        technique="runtime monitoring: white-box allocator driver with a live-address ledger and per-block owner patterns, "
+                  "API-level stack ownership patterns across yields, guard bytes around user stacks, pairwise disjointness "
+                  "of live stacks/descriptors, malloc/mmap ledger via link-time wrappers, environment matrix, ASan/TSan",
+        category="exploration",
+        text="held on the executions produced: hundreds of thousands of allocator operations over several local pools "
+             "sharing a global pool (bucket hand-over, partial buckets, lock-free LIFO under contention and injected delays) "
+             "never hand out a live block twice or damage a live block, everything is returned at destroy; ULTs with default, "
+             "odd-sized and user-supplied stacks under 9 memory-pool configurations own their whole stack exclusively, report "
+             "at least the requested size, can be freed from any context, and ABT_finalize balances the ledger",
+        ref="DESIGN.md §5 C15"),
 }
 
 
